@@ -721,7 +721,7 @@ Proof.
 Qed.
 
 (* the panic: exactly when the call reaches an existing bucket whose
-   refilled_at is later than now; nothing changes, nothing is admitted *)
+   refilled_at is later than now; nothing changes, nothing is let through *)
 Theorem clock_panic_exactly :
   forall (l : limiter) (r : req),
   snd (limit l r) = ClockPanic <->
@@ -789,7 +789,7 @@ Theorem bucket_keeps_first_tokens :
   = option_map r_tok (first_reaching bypass h rs).
 Proof. intros bypass rs h. apply (bucket_created_by_first h rs (limiter_new bypass)). reflexivity. Qed.
 
-Theorem clock_panic_admits_nothing :
+Theorem clock_panic_grants_nothing :
   forall (l : limiter) (r : req), snd (limit l r) = ClockPanic ->
   is_passed (snd (limit l r)) = false /\ forall h, hb h (fst (limit l r)) = hb h l.
 Proof.
